@@ -78,8 +78,8 @@ def expected_logs(ch, failed_node, kind):
     return out
 
 
-def gen_case(rng, root):
-    depth = rng.choice([0, 0, 1, 1, 2])
+def gen_case(rng, root, kind="draw", prefer_sub=None):
+    depth = rng.choice([0, 0, 1, 1, 2]) if not prefer_sub else rng.choice([1, 1, 2])
     ch = scen.gen_chain(rng, root, n_steps=rng.choice([1, 2]), n_insp=0, thresholds=(1,), max_funcs=2,
                         depth=depth, sub_prob=0.6)
     nodes = list(scen.walk(ch))
@@ -94,12 +94,16 @@ def gen_case(rng, root):
         c06.make_stepless(ch, p_)
         stepless = p_
         nodes = list(scen.walk(ch))
-    kind = rng.choice(FAILS)
+    if kind == "draw":
+        kind = rng.choice(FAILS)
     hooks = []
     failed = None
     if kind:
         # (a failure of an earlier stage is injected through the steps of a layout: one that has some)
-        node, path = rng.choice([(n, p) for n, p in nodes if n.steps])
+        cands_ = [(n, p) for n, p in nodes if n.steps]
+        if prefer_sub and [c_ for c_ in cands_ if c_[1]]:
+            cands_ = [c_ for c_ in cands_ if c_[1]]
+        node, path = rng.choice(cands_)
         if inject(rng, ch, node, kind, not path, hooks):
             failed = node
             # a failing sublayout must be decisive for its parent
@@ -162,10 +166,10 @@ def timeout_for(ch):
     return 5 if sleeper else 60
 
 
-def one_case(rng, res):
+def one_case(rng, res, kind="draw", prefer_sub=None):
     root = scen.new_root()
     try:
-        ch, desc, hooks, failed = gen_case(rng, root)
+        ch, desc, hooks, failed = gen_case(rng, root, kind, prefer_sub)
         scn = scen.build(ch, root, rng)
         scn.params = vcommon.pick_params(rng, desc)
         vcommon.pick_tz(rng, scn, desc)
@@ -245,8 +249,15 @@ def cli_case(rng, res):
 def shard(seed, idx, n, tier):
     res = core.Result()
     rng = core.rng_for(seed, "c07", idx)
-    for _ in range(n):
-        one_case(rng, res)
+    # every kind of failing earlier stage occurs in every run, at the root and inside a delegated layout (the kinds are
+    # cycled through, not drawn: what a run covers must not depend on the luck of the seed)
+    kinds = [k_ for k_ in dict.fromkeys(FAILS) if k_]
+    for j in range(n):
+        c_ = idx * n + j
+        if c_ % 3 == 0:
+            one_case(rng, res, kind=kinds[(c_ // 3) % len(kinds)], prefer_sub=(c_ // 3 // len(kinds)) % 2 == 0)
+        else:
+            one_case(rng, res)
     for _ in range(max(1, n // 6)):
         cli_case(rng, res)
     return res
